@@ -523,10 +523,11 @@ class Inliner:
             self.only_module_level = True
             try:
                 # purely syntactic normal forms are safe for hook classes too (no helper is moved)
-                return _filter_loops(fn) + _reduce_and_extend_loops(fn) + self._expr_helpers(r, fn)
+                return _return_temps(fn) + _filter_loops(fn) + _reduce_and_extend_loops(fn) + self._expr_helpers(r, fn)
             finally:
                 self.only_module_level = False
-        n = _filter_loops(fn)
+        n = _return_temps(fn)
+        n += _filter_loops(fn)
         n += _reduce_and_extend_loops(fn)
         n += _callable_choice(fn)
         n += self._block(r, fn, fn.node.body)
@@ -894,6 +895,36 @@ def _stmt_lists(node):
 
     rec(node.body)
     return out
+
+
+def _return_temps(fn: FuncInfo) -> int:
+    """`x = E; return x`  (adjacent, x a plain local)  is written `return E`.
+
+    The two spellings are the same program: nothing can observe x between the binding and the return, and after the return only a
+    `finally` block or a closure could read it -- both are excluded.  Rules that classify *what a function returns* on each path then see
+    the expression itself, however many branches reuse the same temporary name."""
+    node = fn.node
+    declared = {nm for x in ast.walk(node) if isinstance(x, (ast.Global, ast.Nonlocal)) for nm in x.names}
+    in_finally = {x.id for t in ast.walk(node) if isinstance(t, ast.Try) for st in t.finalbody for x in ast.walk(st) if isinstance(x, ast.Name)}
+    in_nested = {x.id for d in ast.walk(node) if d is not node and isinstance(d, (ast.FunctionDef, ast.AsyncFunctionDef, ast.Lambda)) for x in ast.walk(d) if isinstance(x, ast.Name)}
+    n = 0
+    for stmts in _stmt_lists(node):
+        i = 0
+        while i + 1 < len(stmts):
+            a, b = stmts[i], stmts[i + 1]
+            tgt = None
+            if isinstance(a, ast.Assign) and len(a.targets) == 1 and isinstance(a.targets[0], ast.Name):
+                tgt = a.targets[0].id
+            elif isinstance(a, ast.AnnAssign) and a.value is not None and isinstance(a.target, ast.Name):
+                tgt = a.target.id
+            if tgt and isinstance(b, ast.Return) and isinstance(b.value, ast.Name) and b.value.id == tgt \
+                    and tgt not in declared and tgt not in in_finally and tgt not in in_nested:
+                b.value = a.value
+                del stmts[i]
+                n += 1
+                continue
+            i += 1
+    return n
 
 
 def _reduce_and_extend_loops(fn: FuncInfo) -> int:
